@@ -154,6 +154,32 @@ func DecodeAndValidateClaimsFromCBOR(buf []byte) (IClaims, error) {
 	return claims, nil
 }
 
+// skipCBORTags returns what follows the leading tag heads (major type 6) of
+// the CBOR item in buf. A truncated or reserved tag head is left in place.
+func skipCBORTags(buf []byte) []byte {
+	for len(buf) > 0 && buf[0]>>5 == 6 {
+		n := 1
+		switch ai := buf[0] & 0x1f; {
+		case ai < 24:
+		case ai == 24:
+			n = 2
+		case ai == 25:
+			n = 3
+		case ai == 26:
+			n = 5
+		case ai == 27:
+			n = 9
+		default:
+			return buf
+		}
+		if len(buf) < n {
+			return buf
+		}
+		buf = buf[n:]
+	}
+	return buf
+}
+
 // DecodeClaimsFromCBOR returns an IClaims implementation instance
 // populated from the provided CBOR buf. The implementation used is determined
 // by value of the eat_profile (key 265) in the provided CBOR object. In the
@@ -182,9 +208,10 @@ func DecodeClaimsFromCBOR(buf []byte) (IClaims, error) {
 		Profile string `cbor:"265,keyasint"`
 	}{}
 
-	// CBOR null and undefined decode into any Go value as a no-op, so they
-	// would pass for an (empty) claims-set: the claims must be a map.
-	if len(buf) == 1 && (buf[0] == 0xf6 || buf[0] == 0xf7) {
+	// CBOR null and undefined (tagged or not) decode into any Go value as
+	// a no-op, so they would pass for an (empty) claims-set: the claims
+	// must be a map.
+	if item := skipCBORTags(buf); len(item) == 1 && (item[0] == 0xf6 || item[0] == 0xf7) {
 		return nil, errors.New("CBOR claims must be a map, found null/undefined")
 	}
 
